@@ -190,7 +190,7 @@ def native_harness(text, san=True, extra_srcs=(), defs=()):
         f.write(text)
     tmp = exe + '.%d.tmp' % os.getpid()
     rc, out = sh([CLANG] + flags + ['-I', SRC, '-I', GEN, '-I', SUPPORT, src, os.path.join(SUPPORT, 'vp_native.cpp')] +
-                 list(extra_srcs) + [lib, '-lz', '-lpthread', '-o', tmp])
+                 list(extra_srcs) + [lib, '-lz', '-lpthread', '-ldl', '-o', tmp])
     if rc != 0:
         raise RuntimeError('native harness link failed:\n' + out[-4000:])
     os.replace(tmp, exe)
